@@ -124,6 +124,8 @@ def check(prog, rep, tier):
                       'every value octet in which the encoder places a given value')
     rep.rule('R17.g', 'field boundaries: no comparison in the community codecs or the REST recombination splits a range '
                       'between 2**k - 2 and 2**k - 1 (the largest value of a field must be on the fitting side)')
+    rep.rule('R17.h', 'unsigned wire: no signed struct code in the community codecs (traffic-rate float excepted by '
+                      'its own code f)')
     rep.assumptions += ['float rounding of traffic-rate and numeric ranges are not decided']
     cm = prog.module(CONS)
     STR = prog.fold(cm.assigns['BGP_EXT_COM_STR_DICT'], cm)
@@ -276,6 +278,10 @@ def check(prog, rep, tier):
             rep.bad('R17.e', key, file=fc.file, line=line, func=fc.qualname,
                     found='extended community %s encodes to %s octets' % (code, sorted(sizes)), expected='8', key=key)
     read_coverage(prog, rep, written, dec)
+    # ---------------------------------------------------------------- R17.h
+    common.report_signed_formats(prog, rep, 'R17.h', lambda fn: fn.module.name.rsplit('.', 1)[-1] in (
+        'community', 'extcommunity', 'largecommunity') and fn.module.name.startswith('yabgp.message.attribute'), 40)
+
     # ---------------------------------------------------------------- R17.g
     common.report_boundary_splits(
         prog, rep, 'R17.g', lambda fn: (fn.module.name.rsplit('.', 1)[-1] in ('community', 'extcommunity', 'largecommunity')
